@@ -171,7 +171,7 @@ def run_subjects(ctx, pid_tag, exe_by_cfg, jobs, classify=None, use_driver=True,
     return stats
 
 
-def run_sweep(ctx, tag, harness, cfgs, args, prefixes, flags=("-fno-access-control",), timeout=1200, subject=None):
+def run_sweep(ctx, tag, harness, cfgs, args, prefixes, flags=("-fno-access-control",), timeout=1200, subject=None, ignore_known=()):
     """deterministic sweep harnesses (one run per configuration): the lines starting with one of `prefixes` are compared with the
     driver's output; `oracle-fail` lines and crashes are property failures with the harness command as the replay"""
     total = {}
@@ -204,6 +204,16 @@ def run_sweep(ctx, tag, harness, cfgs, args, prefixes, flags=("-fno-access-contr
                     extra=dict(cases=ncase, **{k: v for k, v in summary.items() if k in ("throw", "joint", "reported", "clean")}))
         total[cfg] = ncase
         cmd = "%s %s" % (exe, " ".join(map(str, args)))
+        # findings listed in known_findings.json carry a `known-<id>` tag in the harness output
+        import re as _re
+        known = [l for l in oracle if _re.search(r"known-(D\d+)", l)]
+        oracle = [l for l in oracle if l not in known]
+        for l in known:
+            kid = _re.search(r"known-(D\d+)", l).group(1)
+            if kid in ignore_known:  # a recorded finding of another property that the same harness reproduces
+                continue
+            ctx.violation("%s-%s-%s-%s" % (tag, harness, cfg, kid), "%s [%s] %s" % (harness, cfg, l),
+                          dict(subject=harness, cfg=cfg, oracle=[l], replay_cmd=cmd), signature=dict(oracle="sweep", known=kid))
         if oracle or rc != 0:
             what = "%s [%s] %s" % (harness, cfg, oracle[0] if oracle else "harness died rc=%d %s" % (rc, err[-300:].replace("\n", " ")))
             ctx.violation("%s-%s-%s" % (tag, harness, cfg), what, dict(subject=harness, cfg=cfg, oracle=oracle[:6], replay_cmd=cmd),
